@@ -39,8 +39,8 @@ func ethSpelling(rng *Rng, base string) string {
 }
 
 var symPool = []string{"eth", "usdc", "rowan", "dai", "a", "x.y", "ceth"}
-var lockSyms = []string{"rowan", "ceth", "cusdc", "stake", "ab", "ceth", "rowan", "cdai"}
-var burnSyms = []string{"ceth", "cusdc", "cdai", "rowan", "cx", "ceth", "cusdc", "crowan"}
+var lockSyms = []string{"rowan", "ceth", "cusdc", "stake", "ab", "ceth", "rowan", "cdai", "rowan", "rowan"}
+var burnSyms = []string{"ceth", "cusdc", "cdai", "rowan", "cx", "ceth", "cusdc", "crowan", "ceth", "cdai"}
 
 const gasCost = "23580000000000000" // 60000000000 * 393000
 
@@ -306,7 +306,21 @@ func randomHistory(rng *Rng, profile string) hist {
 	if len(wl) > 0 {
 		wls = strings.Join(wl, ",")
 	}
+	if profile == "peg" && rng.Chance(3, 4) {
+		// a plain 50/50 validator set and bootstrap credits, so that pegged tokens exist and are held
+		powers, bonded, nv = []int64{50, 50}, []bool{true, true}, 2
+		wls = "0,1"
+	}
 	stdSetup(&h, powers, bonded, wls)
+	if profile == "peg" && nv == 2 && wls == "0,1" {
+		for i, c := range []string{"4 %s eth " + tok0 + " 2", "5 %s usdc " + tok1 + " 2", "4 %s dai " + tok1 + " 2"} {
+			if rng.Chance(3, 4) {
+				amt := new(big.Int).Add(rng.Amount(75), bigPow(10, 19)).String()
+				h.add("tx claim 0 1 %d %s "+c, 900+i, snd0, amt)
+				h.add("tx claim 1 1 %d %s "+c, 900+i, snd0, amt)
+			}
+		}
+	}
 	for a := 4; a <= 6; a++ {
 		if rng.Chance(2, 3) {
 			h.add("fund %d rowan %s", a, rng.Amount(80))
@@ -427,7 +441,7 @@ func randomPegOp(rng *Rng, h *hist) {
 			amount = rng.Amount(120).String()
 		}
 		ceth := gasCost
-		switch rng.Intn(8) {
+		switch rng.Intn(14) {
 		case 0:
 			ceth = "23579999999999999"
 		case 1:
@@ -435,9 +449,9 @@ func randomPegOp(rng *Rng, h *hist) {
 		case 2:
 			ceth = "0"
 		}
-		h.add("tx %s %d %d %s %s %s %s", kind, 3+rng.Intn(4), []int64{1, 1, 0, -3}[rng.Intn(4)], recv, amount, syms[rng.Intn(len(syms))], ceth)
+		h.add("tx %s %d %d %s %s %s %s", kind, 3+rng.Intn(4), []int64{1, 1, 1, 1, 1, 0, -3}[rng.Intn(7)], recv, amount, syms[rng.Intn(len(syms))], ceth)
 	case r < 78:
-		h.add("tx pause %d %s", signer, b2s(rng.Chance(1, 2)))
+		h.add("tx pause %d %s", signer, b2s(rng.Chance(1, 3)))
 	case r < 88:
 		n := rng.Intn(3)
 		var l []string
